@@ -573,7 +573,7 @@ def search_wscale(ctx, rng, budget):
         if bad:
             params = dict(IM=IM.tolist(), W=W.tolist(), origin=oj(o), rmax=rm, order=order, odd=odd, use_sin=sin, method=meth,
                           c=float(c).hex(), window=window, exact=bool(exact), radii=radii, tol=tol)
-            if N > 3 and k < -40:
+            if N > 3 and k < 0:
                 key = 'C15:weights-scale:N>3:absolute-threshold-of-the-general-inverse'
             else:
                 key = 'C15:weights-scale:N=%s:method=%s:%s' % (N if N <= 3 else '>3', meth, 'down' if k < 0 else 'up')
